@@ -427,6 +427,17 @@ Section EvalAuth.
       + cbn [firstn fold_left]. apply S2. exact Nt.
   Qed.
 
+  Lemma eval_loop_err : forall v l n g0 st i acc e,
+    eval_loop H v n g0 st i acc l = inr e -> e <> EOk.
+  Proof.
+    induction l as [|t l IH]; intros n g0 st i acc e E; cbn [eval_loop] in E; [discriminate|].
+    destruct (v && negb (e_pre_ok t)); [injection E as <-; discriminate|].
+    destruct (v && negb (beqb (e_authorizer t) (current_authorizer st (e_sender t)))); [injection E as <-; discriminate|].
+    destruct (negb (e_apply_ok t)); [injection E as <-; discriminate|].
+    destruct (group_member_step H n g0 i acc (e_gtx t)) as [acc1|e1]; [exact (IH _ _ _ _ _ _ E)|].
+    injection E as <-. discriminate.
+  Qed.
+
   Theorem eval_auth_sound : forall st fees g st',
     eval_txgroup H true maxgroup st fees g = (EOk, st') ->
     st' = fold_left apply_rekey g st /\
@@ -437,7 +448,7 @@ Section EvalAuth.
     destruct g as [|t0 g]; [injection E as <-; split; [reflexivity | intros [|j] t; discriminate]|].
     destruct (maxgroup <? blen (t0 :: g)); [discriminate|].
     destruct (eval_loop H true (length (t0 :: g)) (g_grp (e_gtx t0)) st 0 [] (t0 :: g)) as [[st1 acc]|e] eqn:L;
-      [|discriminate].
+      [|injection E as E1 _; exfalso; exact (eval_loop_err _ _ _ _ _ _ _ _ L E1)].
     destruct (group_final H (g_grp (e_gtx t0)) acc); try discriminate.
     destruct fees; [|discriminate]. injection E as <-.
     destruct (eval_loop_auth _ _ _ _ _ _ _ _ L) as [S1 S2]. split; [exact S1|].
